@@ -106,7 +106,7 @@ def build_traces(path, tier, seed):
         try:
             with warnings.catch_warnings():
                 warnings.simplefilter("ignore")
-                kw = {"filter_order": order}
+                kw = {"filter_order": gen.intlike(rng, order)}
                 if gibbs is not None:
                     kw["remove_gibbs"] = gibbs
                 o.butter_pass(cut_arg, **kw)
@@ -150,7 +150,7 @@ def build_traces(path, tier, seed):
         x = float(10.0 ** rng.uniform(-1, 1)) * np.sin(2 * np.pi * f * t + float(rng.uniform(0, 6.28)))
         cls = eqsig.AccSignal if j % 2 else eqsig.Signal
         o = cls(x.copy(), dt)
-        kw = {"filter_order": order}
+        kw = {"filter_order": gen.intlike(rng, order)}
         if j % 4 == 1:
             kw["remove_gibbs"] = "mid"
         with warnings.catch_warnings():
@@ -195,7 +195,7 @@ def build_traces(path, tier, seed):
         d = i % 5
         if i % 2:
             o = eqsig.AccSignal(x.copy(), 0.01)
-            o.remove_poly(d)
+            o.remove_poly(gen.intlike(rng, d))
             y = np.array(o.values)
             o.remove_poly(poly_fit=d)
             y2 = np.array(o.values)
@@ -259,7 +259,7 @@ def build_traces(path, tier, seed):
             x = np.round(x / (np.max(np.abs(x)) + 1e-300) * 20).astype(np.int64)      # integer record
         cls = eqsig.AccSignal if i % 2 else eqsig.Signal
         o = cls(np.array(x), 0.01)
-        o.running_average(w)
+        o.running_average(gen.intlike(rng, w))
         add({"kind": "runav", "w": w, "x": enc_seq(np.asarray(x, dtype=float)), "y": enc_seq(np.asarray(o.values, dtype=float))},
             {"kind": "runav", "n": n, "w": w, "dtype": str(np.asarray(x).dtype), "shape": shape})
     write_ndjson(path, recs)
